@@ -116,7 +116,12 @@ pub fn scenario(r: &mut Report, seed: u64) {
     let socks: Vec<SockId> = ends.iter().map(|e| w.raw(e.1)).collect();
     let signer = SigningKey::from_bytes(&rng.array::<32>());
     let other = SigningKey::from_bytes(&rng.array::<32>());
-    let salt: Option<Vec<u8>> = if rng.bool() { Some(rng.blob(1, 20)) } else { None };
+    // no salt, a short salt, or one of exactly 64 bytes (the BEP44 maximum)
+    let salt: Option<Vec<u8>> = match rng.usize(4) {
+        0 | 1 => None,
+        2 => Some(rng.blob(1, 20)),
+        _ => Some(rng.bytes(64)),
+    };
     let imm_value = rng.blob(1, 80);
     let tr = Truth {
         imm_target: immutable_target(&imm_value),
@@ -276,16 +281,36 @@ pub fn scenario(r: &mut Report, seed: u64) {
                 }
             }
         }
+        // the same key under the requested salt (three callers) and under neighbouring salts (longer by a
+        // suffix, shorter by a byte, absent / present): each caller may only see items for ITS salt
         let salt_j = tr.salt.clone();
-        let starts: Vec<u64> = delays.iter().map(|d| w.now() + d).collect();
-        let got = super::net::staggered(&w, &starts, |_| { let (a, s) = (a.clone(), salt_j.clone()); Box::pin(async move { a.get_mutable(&pk, s.as_deref(), None).collect::<Vec<dht::MutableItem>>().await }) as Pin<Box<dyn Future<Output = Vec<dht::MutableItem>>>> }, bound);
+        let mut salts: Vec<Option<Vec<u8>>> = vec![salt_j.clone(), salt_j.clone(), salt_j.clone()];
+        match &salt_j {
+            Some(sv) => {
+                let mut longer = sv.clone();
+                longer.extend_from_slice(b"draft");
+                salts.push(Some(longer));
+                if sv.len() > 1 {
+                    salts.push(Some(sv[..sv.len() - 1].to_vec()));
+                }
+                salts.push(None);
+            }
+            None => salts.push(Some(b"x".to_vec())),
+        }
+        let starts: Vec<u64> = (0..salts.len()).map(|i| w.now() + delays[i % 3] + (i as u64 / 3) * 25 * MS).collect();
+        let got = super::net::staggered(&w, &starts, |i| { let (a, s) = (a.clone(), salts[i].clone()); Box::pin(async move { a.get_mutable(&pk, s.as_deref(), None).collect::<Vec<dht::MutableItem>>().await }) as Pin<Box<dyn Future<Output = Vec<dht::MutableItem>>>> }, bound);
         for (i, g) in got.into_iter().enumerate() {
+            let want_salt = salts[i].as_deref();
             for it in g.unwrap_or_default() {
                 r.count("mutable_yielded_to_joined_or_first_caller");
-                let ok = it.key() == &pk && it.salt() == salt_j.as_deref() && verify(&pk, &mutable_signable(it.seq(), it.value(), salt_j.as_deref()), it.signature());
+                let ok = it.key() == &pk && it.salt() == want_salt && verify(&pk, &mutable_signable(it.seq(), it.value(), want_salt), it.signature());
                 if !ok {
-                    r.violation("yield/mutable-not-authentic/joined-caller", "get_mutable yielded an item that is not authentic for the requested key and salt (caller joined a running lookup)", case.clone(), json!({"caller": i, "seq": it.seq(), "replies": obs.borrow().log}));
+                    let which = if i < 3 { "joined-caller" } else { "caller-with-a-neighbouring-salt" };
+                    r.violation(&format!("yield/mutable-not-authentic/{which}"), "get_mutable yielded an item that is not authentic for the key and salt this caller asked for", case.clone(), json!({"caller": i, "seq": it.seq(), "requested_salt_len": want_salt.map(|s| s.len()), "item_salt_len": it.salt().map(|s| s.len()), "replies": obs.borrow().log}));
                 }
+            }
+            if i >= 3 {
+                r.count("mutable_callers_with_neighbouring_salt");
             }
         }
         let ihj = Id::from(tr.ih);
